@@ -49,6 +49,7 @@ type script struct {
 	sockBuf      int           // socket buffer of a hung endpoint; 0: 4096 bytes
 	spoolFile    int           // spool segment size; 0: 200 bytes
 	spoolSleep   time.Duration // pacing of lines entering the spool (production default 500 us)
+	flush        time.Duration // flush period of the connection; 0: 1 s
 }
 
 func line() step                  { return step{kind: "line"} }
@@ -91,6 +92,10 @@ var scripts = []script{
 	{name: "S8 hung-endpoint-full-queue-then-dies", startUp: true, hung: true, sockBuf: 16,
 		steps: seq(s(line(), line(), line(), line(), line(), line(), line(), ev("peerclose"), line(), ev("healthy"), maybe(sec(1.1)), line()))},
 	// S4: outage while the backlog is being unspooled
+	// S9: a flush period (a documented tuning value) longer than the time in-flight lines are retained
+	// for replay: a line waits in the write buffer for the next flush, the endpoint closes first
+	{name: "S9 flush-period-25s-peer-close", startUp: true, flush: 25 * time.Second,
+		steps: seq(s(line(), sleep(sec(21)), ev("peerclose"), maybe(sec(3)), line(), sleep(sec(30)), line()))},
 	{name: "S4 outage-while-unspooling", startUp: false, unspoolSleep: 700 * time.Millisecond,
 		steps: seq(s(line(), line(), line(), line(), ev("up"), sleep(sec(3.2)), ev("peerclose"), maybe(sec(0.4)), line()))},
 }
@@ -117,12 +122,16 @@ func (e *exec) Body() {
 	}
 	vrt.SetEnv("net", e.net)
 	vrt.SetEnv("fs", vos.NewFS())
+	flush := time.Second
+	if e.sc.flush > 0 {
+		flush = e.sc.flush
+	}
 	spoolFile := 200
 	if e.sc.spoolFile > 0 {
 		spoolFile = e.sc.spoolFile
 	}
 	d, err := destination.New("r", matcher.Matcher{}, "10.1.1.1:2003", "/spool", true, false,
-		time.Second, 2*time.Second, 4, iobuf, 10, int64(spoolFile), 2, time.Second, e.sc.spoolSleep, e.sc.unspoolSleep)
+		flush, 2*time.Second, 4, iobuf, 10, int64(spoolFile), 2, time.Second, e.sc.spoolSleep, e.sc.unspoolSleep)
 	if err != nil {
 		panic(err)
 	}
